@@ -20,7 +20,7 @@ RULE = (
 )
 ASSUMPTIONS = [
     "ids passed to replace/upsert are live ids of that bucket; ids passed to delete are live or not live anywhere; replace_last only on non-empty buckets",
-    "single insertion of an event that already carries an id is not generated; duplicate ids inside one bulk list are not generated",
+    "single insertion of an event that already carries an id is not generated; a bulk list may address the same live id twice (the list model applies the entries in order)",
     "which of several equally-new events a limit-1 read returns is left to the backend; only agreement between that read and replace_last is demanded",
     "return values of delete/replace are not compared",
 ]
@@ -139,9 +139,7 @@ class _Run:
                     evs, new, upd = [], [], {}
                     for it in op["items"]:
                         if it["k"] is not None and live:
-                            eid = live[it["k"] % len(live)]
-                            if eid in used:
-                                eid = None
+                            eid = live[it["k"] % len(live)]  # the same live id may occur twice in one list: applied in order, the last one wins
                         else:
                             eid = None
                         if eid is None:
